@@ -12,8 +12,10 @@ package sqlite
 //
 // A block may carry several changes of one contract, in the combinations consensus allows: a v1
 // formation whose created element carries the revisions confirmed in the same block (evForm with
-// new = k >= 1), a v2 contract revised and resolved (renewal / storage proof / expiration) in one
-// block (an evRev and a resolution event of the same contract).  When vfBuildHook is set
+// new = k >= 1), possibly resolved in that very block (an evForm and a resolution event of the same v1
+// contract: the formation confirmed in the block at its window start together with a storage
+// proof), a v2 contract revised and resolved (renewal / storage proof / expiration) in one block
+// (an evRev and a resolution event of the same contract).  When vfBuildHook is set
 // (verif_c01_hook_test.go) every well-formed block reaches the store the way it does in
 // production: its changes are merged into one element diff per contract id, as core's MidState
 // does, and handed to the real contracts.buildContractState, whose result goes to the store.
@@ -95,13 +97,14 @@ func (b *vfBlock) index() types.ChainIndex {
 
 // chain-derived view of one contract (reference fold used by the generator only)
 type vfRef struct {
-	formed     bool
-	lastRev    uint64
-	resolved   int // 0 none, 1 successful, 2 failed, 3 renewed
-	formIdx    types.ChainIndex
-	resIdx     types.ChainIndex
-	folded     bool // v1: lastRev is the revision the formation carried (k >= 1)
-	resWithRev bool // resolved in a block that also revised the contract
+	formed      bool
+	lastRev     uint64
+	resolved    int // 0 none, 1 successful, 2 failed, 3 renewed
+	formIdx     types.ChainIndex
+	resIdx      types.ChainIndex
+	folded      bool // v1: lastRev is the revision the formation carried (k >= 1)
+	resWithRev  bool // resolved in a block that also revised the contract
+	resWithForm bool // resolved in the block that formed the contract
 }
 
 func vfFold(chain []*vfBlock) map[*vfContract]*vfRef {
@@ -113,10 +116,13 @@ func vfFold(chain []*vfBlock) map[*vfContract]*vfRef {
 		return m[c]
 	}
 	for _, b := range chain {
-		revised := map[*vfContract]bool{}
+		revised, created := map[*vfContract]bool{}, map[*vfContract]bool{}
 		for _, e := range b.events {
 			if e.kind == evRev {
 				revised[e.c] = true
+			}
+			if e.kind == evForm {
+				created[e.c] = true
 			}
 		}
 		for _, e := range b.events {
@@ -134,14 +140,17 @@ func vfFold(chain []*vfBlock) map[*vfContract]*vfRef {
 				r.resolved = 1
 				r.resIdx = b.index()
 				r.resWithRev = revised[e.c]
+				r.resWithForm = created[e.c]
 			case evFail:
 				r.resolved = 2
 				r.resIdx = b.index()
 				r.resWithRev = revised[e.c]
+				r.resWithForm = created[e.c]
 			case evRenew:
 				r.resolved = 3
 				r.resIdx = b.index()
 				r.resWithRev = revised[e.c]
+				r.resWithForm = created[e.c]
 			}
 		}
 	}
@@ -406,6 +415,16 @@ func vfSameBlock(b *vfBlock) (out []string) {
 		}
 		if e.kind == evForm && !e.c.v2 && e.new > 0 {
 			out = append(out, "v1:form+revision")
+		}
+	}
+	for _, e := range b.events {
+		if e.kind != evForm || e.c.v2 {
+			continue
+		}
+		for _, f := range b.events {
+			if f.c == e.c && f.kind != evForm && f.kind != evRev {
+				out = append(out, "v1:form+"+vfEvName[f.kind])
+			}
 		}
 	}
 	for _, e := range b.events {
@@ -1089,6 +1108,9 @@ func (w *vfWorld) checkShadow(when string) {
 		switch {
 		case got.FormationConfirmed != r.formed:
 			w.em.Monitor("v1-formation-confirmed-differs-from-chain", det)
+		case got.Status != want && r.resWithForm && got.Status == contracts.ContractStatusActive:
+			// formed and resolved in one block: the resolution did not reach the store
+			w.em.Monitor("same-block-v1-formation-and-resolution-not-both-recorded", det)
 		case got.Status != want && !(want == contracts.ContractStatusPending && got.Status == contracts.ContractStatusRejected):
 			w.em.Monitor("v1-status-differs-from-chain", det)
 		case got.ResolutionHeight != wantRes:
@@ -1235,6 +1257,12 @@ func (w *vfWorld) newBlock(chain []*vfBlock, density int) *vfBlock {
 					n = uint64(1 + w.rng.Intn(3)) // some revision is folded into the formation
 				}
 				b.events = append(b.events, vfEvent{kind: evForm, c: c, new: n})
+				if !c.v2 && w.rng.Intn(6) == 0 {
+					// ... and resolved in the same block (the formation is confirmed in the block
+					// at its window start together with a storage proof; missed for completeness)
+					res := []int{evProof, evProof, evProof, evMissOK, evFail}[w.rng.Intn(5)]
+					b.events = append(b.events, vfEvent{kind: res, c: c})
+				}
 			case r.resolved == 0:
 				switch k := w.rng.Intn(10); {
 				case k < 5:
@@ -1276,23 +1304,28 @@ func vfValidOn(chain []*vfBlock, b *vfBlock) bool {
 		return false
 	}
 	ref := vfFold(chain)
-	for _, e := range b.events {
-		r := ref[e.c]
-		if r == nil {
-			r = &vfRef{}
-		}
-		switch e.kind {
-		case evForm:
-			if r.formed {
-				return false
+	formedHere, resolvedHere := map[*vfContract]bool{}, map[*vfContract]bool{}
+	for pass := 0; pass < 3; pass++ { // formations, then revisions, then resolutions
+		for _, e := range b.events {
+			r := ref[e.c]
+			if r == nil {
+				r = &vfRef{}
 			}
-		case evRev:
-			if !r.formed || r.resolved != 0 || r.lastRev != e.old {
-				return false
-			}
-		default:
-			if !r.formed || r.resolved != 0 {
-				return false
+			switch {
+			case e.kind == evForm && pass == 0:
+				if r.formed || formedHere[e.c] {
+					return false
+				}
+				formedHere[e.c] = true
+			case e.kind == evRev && pass == 1:
+				if !r.formed || r.resolved != 0 || r.lastRev != e.old {
+					return false
+				}
+			case e.kind != evForm && e.kind != evRev && pass == 2:
+				if !(r.formed || formedHere[e.c]) || r.resolved != 0 || resolvedHere[e.c] {
+					return false
+				}
+				resolvedHere[e.c] = true
 			}
 		}
 	}
@@ -1898,6 +1931,32 @@ var vfDirected = []func(w *vfWorld){
 			other = append(other, &vfBlock{height: h, bid: w.nextBid})
 		}
 		w.rescanOnto(other)
+	},
+	func(w *vfWorld) { // 15: a v1 contract formed (carrying its latest revision) AND proven in one block
+		w.buffer = 2
+		w.push()
+		c := w.addContract(false, w.tipHeight(), vfSmall)
+		d := w.addContract(false, w.tipHeight(), vfSmall)
+		w.revise(c, vfSmall)
+		w.push(vfEvent{kind: evForm, c: c, new: c.rev}, vfEvent{kind: evProof, c: c})
+		w.pop(1) // formation, revision and resolution undone
+		b1 := w.block(vfEvent{kind: evFail, c: d}, vfEvent{kind: evForm, c: d}, vfEvent{kind: evProof, c: c}, vfEvent{kind: evForm, c: c, new: c.rev})
+		b2 := &vfBlock{height: b1.height + 1, bid: b1.bid + 1}
+		w.nextBid++
+		for i := 0; i < 2; i++ {
+			if w.update(nil, []*vfBlock{b1, b2}, true) {
+				w.commit(nil, []*vfBlock{b1, b2})
+			}
+			if w.update([]*vfBlock{b2, b1}, nil, true) {
+				w.commit([]*vfBlock{b2, b1}, nil)
+			}
+		}
+		if w.update(nil, []*vfBlock{b1, b2}, true) {
+			w.commit(nil, []*vfBlock{b1, b2})
+		}
+		w.rescan()
+		w.push()
+		w.pop(3)
 	},
 }
 
